@@ -22,6 +22,7 @@ DECIDED += ("; R5 name-space checks before creation: open creates a file only wh
 DECIDED += ("; R6 a listing applies its existence tests to the candidate entry, and a flushed SetLen / Rename changes the durable image "
             "the way the merged view showed it (shared C07-R14)")
 DECIDED += "; R3 sibling replays of the pending log consider the same record kinds (file_len ~ read_file, dir_entries ~ dir_has_children)"
+DECIDED += '; a cancelled ring operation is taken out of whichever pool holds it (shared C18-R1)'
 ASSUMPTIONS = ["Rust's &T / &mut T discipline: a function taking &Fs cannot mutate the tree (Fs has no interior mutability: checked)"]
 
 OBSERVERS = ["file_exists", "dir_exists", "symlink_exists", "file_len", "read_file", "dir_entries", "read_link", "file_mode", "dir_mode",
